@@ -11,6 +11,7 @@ pub mod gsess;
 pub mod per;
 pub mod c18;
 pub mod c19;
+pub mod c20;
 
 /// run one case line (from a replay file or the corpus) against the implementation
 pub fn replay(prop: &str, line: &str, em: &mut Emitter) {
@@ -26,6 +27,7 @@ pub fn replay(prop: &str, line: &str, em: &mut Emitter) {
         "decomp" => c08::run_case(&toks, em),
         "cssp" => c01::run_case(&toks, em),
         "conn" => conn::run_case(&toks, em),
+        "gui" => c20::run_case(&toks, em),
         "strict" => { let line = toks.join(" "); em.case(&line, move || crate::common::Obs::new("ok".into()).nt(true).tag("strict")); }
         "seal" => c16::run_case(&toks, em),
         "ntlm_auth" | "ts_chal" | "ts_validate" => c15::run_case(&toks, em),
@@ -38,6 +40,7 @@ pub fn generate(prop: &str, thorough: bool, seed: u64, em: &mut Emitter) {
     let part = part();
     match prop {
         "C01" => c01::generate(thorough, seed, part, em),
+        "C20" => c20::generate(thorough, seed, part, em),
         "C17" | "C03" | "C04" => conn::generate(prop, thorough, seed, part, em),
         "C13" => c13::generate(thorough, seed, part, em),
         "C14" => c14::generate(thorough, seed, part, em),
